@@ -144,6 +144,7 @@ _SIGS = {
     "tree_walk": (c_uint, [P, c_int, c_int, POINTER(c_size_t), POINTER(c_size_t)]),
     "tree_owned_ptrs": (c_size_t, [P, c_void_p, c_size_t]),
     "tree_const_keys": (c_size_t, [P, c_void_p, c_size_t]),
+    "tree_name_flag_conflicts": (c_size_t, [P]),
     "ref_classify": (None, [c_char_p, c_size_t, c_int, POINTER(RefResult)]),
     # shim
     "shim_parse": (None, [c_int, c_char_p, c_size_t, c_int, c_int, c_int, POINTER(ParseOut)]),
